@@ -16,6 +16,9 @@ from . import common
 from .common import MachineryError, Reporter, StopExploration
 
 
+MAX_REPORTED = 5  # VIOLATION lines printed per run (all are counted in the evidence)
+
+
 def main(argv=None):
     ap = argparse.ArgumentParser()
     ap.add_argument("prop")
@@ -30,8 +33,16 @@ def main(argv=None):
 
     t0 = time.time()
     try:
-        common.import_sketchnu()
+        # check modules import sketchnu lazily, so this is cheap; a pool (if the
+        # check wants one) is started first so that its workers compile the
+        # working tree while this process does
         mod = importlib.import_module(f"vf.checks.{prop.lower()}")
+        n_pool = mod.pool_size(tier) if hasattr(mod, "pool_size") else 0
+        if n_pool:
+            from . import pool as _pool
+
+            _pool.start(min(n_pool, os.cpu_count() or 1))
+        common.import_sketchnu()
     except MachineryError as e:
         print(f"MACHINERY-ERROR property={prop}: {e}")
         return 2
@@ -63,6 +74,8 @@ def main(argv=None):
     rc = 0
     try:
         for case, msg in rep.violations:
+            if n_viol >= MAX_REPORTED:
+                break
             # same path as replaying from the file: JSON round trip first
             case = common.dec(json.loads(json.dumps(common.enc(case), default=str)))
             r1 = mod.replay(case)
@@ -99,7 +112,7 @@ def main(argv=None):
         path = common.write_evidence(rep, n_viol)
     except MachineryError as e:
         print(f"MACHINERY-ERROR property={prop}: {e}")
-        return 2
+        return rc or 2
     c = rep.cov
     summary = {
         k: c[k]
@@ -121,5 +134,14 @@ def main(argv=None):
     return rc
 
 
+def _main():
+    try:
+        return main()
+    finally:
+        from . import pool as _pool
+
+        _pool.stop()
+
+
 if __name__ == "__main__":
-    sys.exit(main())
+    sys.exit(_main())
